@@ -26,8 +26,11 @@ static const char *tmpdir = "/tmp";
  * mutation finds reliably.  Return NULL when the file is not of that format.
  *   1  FAR: move the last pattern size one slot up, leaving an unreferenced zero-size pattern
  *   2  AMF (DSMI >= 1.4): row count of the first order = 0
- *   3  AMF: row count of the last order = 0 */
-#define NSPECIAL 3
+ *   3  AMF: row count of the last order = 0
+ *   4..8  the tail cut off (1/8, 1/4, 1/2 of the file, 16 bytes, 1000 bytes): sample data with
+ *         loops reaching beyond the cut
+ *   9  MOD family: restart byte = song length */
+#define NSPECIAL 9
 static unsigned char *special_mutant(const unsigned char *src, long n, int which, long *outn, char *kind)
 {
 	unsigned char *b;
@@ -53,6 +56,33 @@ static unsigned char *special_mutant(const unsigned char *src, long n, int which
 		for (i = 0; i < songlen; i++)
 			if (b[o + i] == last) b[o + i] = (unsigned char)(last + 1);
 		strcpy(kind, "far-hole");
+		*outn = n;
+		return b;
+	}
+	if (which >= 4 && which <= 8) {
+		long cut = which == 4 ? n / 8 : which == 5 ? n / 4 : which == 6 ? n / 2 : which == 7 ? 16 : 1000;
+		if (n < 64 || cut < 1 || cut * 2 > n + 1)
+			return NULL;
+		b = (unsigned char *)malloc(n);
+		memcpy(b, src, n);
+		sprintf(kind, "tailcut%d", which);
+		*outn = n - cut;
+		return b;
+	}
+	if (which == 9) {
+		static const char *const ids[] = { "M.K.", "M!K!", "M&K!", "FLT4", "4CHN", "6CHN", "8CHN", "CD81", "OCTA" };
+		size_t k;
+		int ok = 0;
+		if (n < 1084)
+			return NULL;
+		for (k = 0; k < sizeof(ids) / sizeof(ids[0]); k++)
+			ok |= !memcmp(src + 1080, ids[k], 4);
+		if (!ok)
+			return NULL;
+		b = (unsigned char *)malloc(n);
+		memcpy(b, src, n);
+		b[951] = b[950];
+		strcpy(kind, "mod-restart");
 		*outn = n;
 		return b;
 	}
